@@ -13,11 +13,17 @@ Proof. vm_compute. reflexivity. Qed.
 Lemma call_table_counted : Z.of_nat (length call_table) = call_site_count.
 Proof. vm_compute. reflexivity. Qed.
 
-(* the sites that derive per-frame timestamps (QFrame) are exactly these two: the AC-3 loops of the two MPEG-TS writers *)
+(* the sites that derive per-frame timestamps (QFrame: x + i*spf; QAccum: running position) are exactly these *)
+Definition per_frame_sites : list (string * string) := [
+  ("internal/playback/segment_fmp4.go segmentFMP4ReadDurationFromParts", "durationMp4ToGo");
+  ("internal/protocols/mpegts/from_stream.go FromStream", "multiplyAndDivide");
+  ("internal/protocols/rtmp/from_stream.go FromStream", "timestampToDuration");
+  ("internal/protocols/rtmp/from_stream.go FromStream", "timestampToDuration");
+  ("internal/protocols/rtmp/from_stream.go FromStream", "timestampToDuration");
+  ("internal/protocols/rtmp/from_stream.go FromStream", "timestampToDuration");
+  ("internal/recorder/format_mpegts.go (*formatMPEGTS).initialize", "multiplyAndDivide")]%string.
 Lemma call_table_frame_sites :
-  map cs_where (filter (fun s => is_frame (cs_qty s)) call_table) =
-  ["internal/protocols/mpegts/from_stream.go FromStream"%string;
-   "internal/recorder/format_mpegts.go (*formatMPEGTS).initialize"%string].
+  map (fun s => (cs_where s, cs_callee s)) (filter (fun s => is_frame (cs_qty s)) call_table) = per_frame_sites.
 Proof. vm_compute. reflexivity. Qed.
 
 (* for EVERY class of the table (hence every row), all values of the variables, all rate pairs the code base passes
@@ -33,6 +39,7 @@ Proof.
   assert (qty_value_w q x y i spf = qty_value q x y i spf) as ->.
   { destruct q; cbn [qty_value_w qty_value] in *; try reflexivity.
     - rewrite (wrap64_id (i * spf)) by assumption. apply wrap64_id. assumption.
+    - apply wrap64_id. assumption.
     - apply wrap64_id. assumption. }
   destruct Hs as [Hs|Hs]; [apply muldiv_exact | apply muldiv_exact_rates]; assumption.
 Qed.
